@@ -376,6 +376,54 @@ def h_write_season(ctx):
         ctx.check("written zone name is the zone's name at that date", name == want_name)
 
 
+class FoldTz(SeasonTz):
+    """a PEP 495 zone: on 2021-11-07 the wall-clock hour 01:00-02:00 occurs twice, first with -4:00 (fold 0), then with -5:00 (fold 1);
+    before that hour the offset is -4:00, after it -5:00 (zoneinfo / dateutil zones behave like this)"""
+
+    def _late(self, dt):
+        return dt.hour >= 2 or (dt.hour == 1 and dt.fold == 1)
+
+    def utcoffset(self, dt):
+        if dt is None:
+            return datetime.timedelta(minutes=-300)
+        return datetime.timedelta(minutes=-300) if self._late(dt) else datetime.timedelta(minutes=-240)
+
+    def tzname(self, dt):
+        if dt is None:
+            return "EST"
+        return "EST" if self._late(dt) else "EDT"
+
+
+def h_write_transition(ctx, zone):
+    """values at and around a change of the zone's offset: the written offset is the one of the value itself, also for the
+    second occurrence of a repeated hour (fold=1) and for values within half a millisecond of the change"""
+    conv = Types.DateTime()
+    if zone == "fold":
+        tz = FoldTz()
+        fold = ctx.choice("fold", [0, 1])
+        v = datetime.datetime(2021, 11, 7, ctx.int("hour", 0, 3), ctx.int("minute", 0, 59), ctx.int("second", 0, 59), ctx.int("us", 0, 999999), tzinfo=tz, fold=fold)
+        late = ctx.any([v.hour >= 2, ctx.all([v.hour == 1, fold == 1])])
+    else:
+        tz = SeasonTz()
+        # the last second before the offset changes (end of March / end of October)
+        summer_end = ctx.bool("october")
+        v = datetime.datetime(2021, 10 if summer_end else 3, 31, 23, 59, 59, ctx.int("us", 990000, 999999), tzinfo=tz)
+        late = not summer_end
+    text = conv.unconvert(v)
+    ctx.observe("text", text)
+    ok, F, offmin, name = ref_parse_written(ctx, text, "dt")
+    ctx.check("written text has the form [YYYYMMDD]HHMMSS.XXX[(+|-)h[.mm][:name]]", ok)
+    if zone == "fold":
+        want = -300 if late else -240
+    else:
+        want = -240 if summer_end else -300
+    ctx.check("written offset is the value's own offset (repeated hour, last half millisecond before a change)", offmin == want)
+    # the written text denotes the value's instant to within half a millisecond
+    want_us = inst_us(v.replace(tzinfo=utils.UTC)) - want * 60 * US
+    got_us = ref_epoch_us(ctx, F["y"], F["mo"], F["d"], F["H"], F["M"], F["S"], F["ms"]) - offmin * 60 * US
+    ctx.check("written text denotes the same instant to within half a millisecond", ctx.all([got_us - want_us <= 500, want_us - got_us <= 500]))
+
+
 class NoOffsetTz(datetime.tzinfo):
     """a tzinfo that knows no offset: values carrying it are naive by python's definition"""
 
@@ -454,7 +502,7 @@ def h_gmt_offset(ctx):
     ctx.check("gmt_offset(hours, minutes) is sign(hours) * (|hours|:minutes)", td // datetime.timedelta(minutes=1) == want)
 
 
-HARNESSES = dict(read_localzone=h_read_localzone, write_localzone=h_write_localzone, write_season=h_write_season, read=h_read, reject_range=h_reject_range, reject_edit=h_reject_edit, write=h_write,
+HARNESSES = dict(write_transition=h_write_transition, read_localzone=h_read_localzone, write_localzone=h_write_localzone, write_season=h_write_season, read=h_read, reject_range=h_reject_range, reject_edit=h_reject_edit, write=h_write,
                  write_naive=h_write_naive, roundtrip=h_roundtrip, gmt_offset=h_gmt_offset)
 
 META = dict(
@@ -556,4 +604,6 @@ def instances(tier, seed):
     mk("write_naive:time:zone without offset for bare times", "write_naive", dict(kind="time", zone="zonelike"))
     mk("gmt_offset", "gmt_offset", {})
     mk("write_season", "write_season", {}, timeout_ms=30000)
+    mk("write_transition[fold]", "write_transition", dict(zone="fold"), timeout_ms=30000)
+    mk("write_transition[season]", "write_transition", dict(zone="season"), timeout_ms=30000)
     return out
